@@ -708,6 +708,7 @@ mod imp {
             Part::new(pools::ws_pool(prog_bases.clone()), 2000, 60_000, grid1.clone()),
             Part::new(pools::paren_pool(prog_bases.clone()), 1500, 30_000, grid1.clone()),
             Part::new(pools::eol_pool(prog_bases.clone()), 500, 10_000, grid1.clone()),
+            Part::new(pools::pattern_paren_pool(prog_bases.clone()), 500, usize::MAX, grid1.clone()),
             Part::new(pools::comment_pool(tygen_bases.clone()), 1500, 60_000, grid1.clone()),
             Part::new(pools::ws_pool(tygen_bases.clone()), 1500, 60_000, grid1.clone()),
             Part::new(pools::paren_pool(tygen_bases.clone()), 1500, 60_000, grid1.clone()),
